@@ -41,7 +41,7 @@ def cases(tier, seed):
     if tier == "quick":
         for spec in F.sliced(F.K4(), seed % 16, 16):
             out.append(("tree", spec, tuple(CFG5)))
-        for spec in F.P_ALL:
+        for spec in F.P_ALL + F.P_HUGE:
             out.append(("tree", spec, ((), DEFAULT_PAIR)))
         out.append(("tlc", 1))
     else:
